@@ -841,8 +841,13 @@ def c13(tier, seed):
         work.copy_specs(FAMILY)
         binary = v.build_harness(work, pkg=FAMILY)
         parallel([lambda: mw_run(work, binary, verdict, stats, tier, seed), lambda: sc_run(work, binary, verdict, stats, tier, seed)], 2)
+        # handles of a TCP mux with a TCP connection attached (driver and monitor of the tcp family): one of two handles is aborted
+        # the way an agent drops a candidate, the sibling and the connection must not notice
+        import plan_tcp
+        with v.Work("C13tcp") as twork:
+            plan_tcp.handle_abort_check(twork, verdict, stats, copies=4 if tier == "quick" else 40)
     verdict.coverage.update(stats)
-    verdict.coverage["predicates"] = MW_PREDS + SC_PREDS
+    verdict.coverage["predicates"] = MW_PREDS + SC_PREDS + ["RoutedByFirstUfrag (TCP-mux handles: sibling of an aborted handle)"]
     verdict.assumptions = C13_ASSUME
     return verdict.finish()
 
